@@ -6,7 +6,7 @@ compiler-computed layout;  (d) no hash-order / environment nondeterminism reacha
 (e) checked-in header agrees with plugin-api.
 """
 import re
-from lib import corpus, facts, model, report, callgraph
+from lib import corpus, facts, mir, model, report, callgraph
 
 LAYOUT_MACROS = ["cglue_macro::cglue_trait", "cglue_macro::cglue_trait_ext", "cglue_macro::cglue_trait_group"]
 # proc-macro entry points that define no layout; hash-ordered iteration reachable from them is reported as information
@@ -220,6 +220,10 @@ def run(tier):
     nd = {}
     for fn in gf.fns():
         s = [x for x in callgraph.hash_order_sites(fn) if not x["self"].lstrip("&").startswith(("std::collections::hash_map::", "std::collections::hash_set::"))]
+        if s:
+            # iterations whose order cannot be observed (collected into a set/map/sorted Vec, or reduced by any/all/count/min/max/sum)
+            hb = mir.Body(fn)
+            s = [x for x in s if not (x.get("bb") is not None and callgraph.order_free_sink(hb, x["bb"]))]
         if s:
             sites[fn["path"]] = (fn, s)
         x = callgraph.nondet_sites(fn)
